@@ -24,6 +24,7 @@ let p1 = ref None and p5 = ref None and p3 = ref None and p10 = ref None
 let p4 : (dump * n list) option ref = ref None
 let p12 = ref None and p14 = ref None
 let ins_calls = ref 0 and ins_bad = ref []
+let thm_in = ref 0 and thm_fail = ref 0 and thm_noord = ref 0 and thm_nohyp = ref 0
 let mem_calls = ref 0 and mem_bad = ref []
 (* requests issued by the synthetic backend: insertions that start at the root (phase 10, not inside a memory-parent
    search) and memory insertions (phase 12), in order *)
@@ -102,6 +103,17 @@ let () =
                     let dm_new = dm_of b.raw_objs.(ins) in
                     let res = Stdlib.Hashtbl.find h2 "res" in
                     incr ins_calls;
+                    (* the hypotheses of discovery_insertions_keep_order on this call, and its conclusion on the C tree *)
+                    (match disc_step_inside b.pd (n_of_int ins) (n_of_int root) !dms dm_new with
+                     | Some (true, true) when res <> "-" ->
+                         incr thm_in;
+                         (match disc_ord_after p.pd (n_of_int ins) (n_of_int root) b.pd with
+                          | Some true -> ()
+                          | _ -> ins_bad := (!ins_calls, "order lost although the hypotheses of the theorem hold: " ^ b.raw_objs.(ins)) :: !ins_bad)
+                     | Some (true, true) -> incr thm_fail
+                     | Some (false, _) -> incr thm_noord
+                     | Some (true, false) -> incr thm_nohyp
+                     | None -> incr thm_nohyp);
                     if not (insert_tie b.pd p.pd (n_of_int ins) (n_of_int root) !dms dm_new (Stdlib.Hashtbl.find h2 "same" = "1") (res = "-"))
                     then ins_bad := (!ins_calls, b.raw_objs.(ins)) :: !ins_bad
                 | None -> ()); p10 := None
@@ -142,10 +154,11 @@ let () =
               p5 := Some p.pd
        | 0 ->
          (if !ins_calls > 0 then (match !ins_bad with
-            | [] -> print_endline ("inserts ok n=" ^ string_of_int !ins_calls)
+            | [] -> print_endline ("inserts ok n=" ^ string_of_int !ins_calls ^ " inthm=" ^ string_of_int !thm_in ^ " putback=" ^ string_of_int !thm_fail
+                                   ^ " noord=" ^ string_of_int !thm_noord ^ " nohyp=" ^ string_of_int !thm_nohyp)
             | l -> let (k, raw) = Stdlib.List.hd (Stdlib.List.rev l) in
                    print_endline ("inserts DIFF call=" ^ string_of_int k ^ " of " ^ string_of_int !ins_calls ^ " bad=" ^ string_of_int (Stdlib.List.length l) ^ " obj: " ^ raw)));
-         ins_calls := 0; ins_bad := [];
+         ins_calls := 0; ins_bad := []; thm_in := 0; thm_fail := 0; thm_noord := 0; thm_nohyp := 0;
          (if !mem_calls > 0 then (match !mem_bad with
             | [] -> print_endline ("meminserts ok n=" ^ string_of_int !mem_calls)
             | l -> let (k, raw) = Stdlib.List.hd (Stdlib.List.rev l) in
